@@ -16,6 +16,7 @@ from mc.env import guard
 from tracklib.core.obs import Obs
 from tracklib.core.obs_coords import ENUCoords
 from tracklib.core.track import Track
+from tracklib.core.network import Network, Node, Edge
 from tracklib.algo.simplification import simplify, MODE_SIMPLIFY_DOUGLAS_PEUCKER, MODE_SIMPLIFY_VISVALINGAM
 
 ID = "C16"
@@ -35,6 +36,7 @@ ASSUMPTIONS = ["ENU tracks, z = 0, strictly increasing unique timestamps 3 s apa
 N_VARIANTS = 4
 
 OBLIGATIONS = {
+    "edge_of_a_network": "the track was simplified as the geometry of a network edge (Network.simplify), after a longer edge",
     "far_from_the_origin": "a track at projected-metre magnitudes (x 6.5e5, y 6.9e6) with decimetre detail was simplified",
     "numpy_scalar_coordinates": "a track whose coordinates are numpy.float64 scalars was simplified",
     "second_call_in_a_row": "a simplification was judged right after another one in the same process",
@@ -116,7 +118,7 @@ def _classify(ptsl, ctx):
     return rep
 
 
-def check_simplify(variant, ptsl, tol_l, algo, ctx, rep=None, ctype="float", frame="near"):
+def check_simplify(variant, ptsl, tol_l, algo, ctx, rep=None, ctype="float", frame="near", via="function"):
     """simplify(track, tolerance, mode) on one lattice track.  tol_l is the tolerance in lattice units."""
     ptsl = [tuple(p) for p in ptsl]
     case = {"op": "simplify", "variant": variant, "pts": [list(p) for p in ptsl], "tol": tol_l, "algo": algo}
@@ -126,6 +128,9 @@ def check_simplify(variant, ptsl, tol_l, algo, ctx, rep=None, ctype="float", fra
     if frame != "near":
         case["frame"] = frame
         ctx.oblige("far_from_the_origin")
+    if via != "function":
+        case["via"] = via
+        ctx.oblige("edge_of_a_network")
     if rep is None:
         rep = len(set(ptsl)) < len(ptsl)
     ctx.case(rep)
@@ -141,7 +146,19 @@ def check_simplify(variant, ptsl, tol_l, algo, ctx, rep=None, ctype="float", fra
             ctx.oblige("deviation_equals_tolerance")
 
     def call():
-        out = simplify(track, tol, MODES[algo])
+        if via == "network":
+            # Network.simplify(tolerance, mode) forwards every edge geometry to simplify(): the track is the geometry of
+            # the second edge of a two-edge network (the first edge is a four-vertex zigzag)
+            other = _mk_track(variant, [(0, 0), (1, 2), (2, 0), (2, 2)], "float", frame)
+            net = Network()
+            for k, g in enumerate((other, track)):
+                a = Node("s%d" % k, g[0].position.copy())
+                b = Node("t%d" % k, g[g.size() - 1].position.copy())
+                net.addEdge(Edge("e%d" % k, g), a, b)
+            net.simplify(tol, MODES[algo])
+            out = net.EDGES["e1"].geom
+        else:
+            out = simplify(track, tol, MODES[algo])
         rows = []
         for k in range(len(out)):
             o = out[k]
@@ -223,7 +240,7 @@ def replay(case, ctx):
         f, g = case["first"], case["second"]
         return check_after(case["variant"], (f[0], f[1], f[2]), (g[0], g[1], g[2]), ctx)
     check_simplify(case["variant"], case["pts"], case["tol"], case["algo"], ctx, ctype=case.get("ctype", "float"),
-                   frame=case.get("frame", "near"))
+                   frame=case.get("frame", "near"), via=case.get("via", "function"))
 
 
 def probe():
@@ -310,6 +327,8 @@ def run_shard(shard, ctx):
                         check_simplify(v, ptsl, tol, algo, ctx, rep, ctype="np.float64")
                         # ... and far from the origin (6.9e6 m) with a lattice step of 12.5 cm
                         check_simplify(v, ptsl, tol, algo, ctx, rep, frame="far")
+                    if n <= 3:                    # ... and as the geometry of a network edge, through Network.simplify
+                        check_simplify(v, ptsl, tol, algo, ctx, rep, via="network")
             done += 1
             if done == 7:
                 ctx.sample({"track": [list(p) for p in ptsl], "tolerances_lattice_units": tols, "algorithms": algos, "variant": v})
